@@ -1,3 +1,85 @@
-(* C17  (stub while the correspondence is brought up) *)
-From V Require Import Model.Response Proofs.Response.
-Example C17_nonvacuous : next4 5 = 8. Proof. reflexivity. Qed.
+(* C17  A request-sized buffer always suffices for the server's answer.
+   Property theorems only; proofs are in Proofs/ResponseFit.v, the model in Model/Response.v.
+
+   The statement as documented on Server::handle is FALSE for the code (known finding): the
+   witnesses below (the C17_refuted theorems) are answered with a 1024-byte buffer and dropped with a buffer
+   as long as the request.  What holds is the statement outside the class
+     known_class_C17 q k :=
+        (a) an echoed unique-identifier field is shorter on the wire than the minimum size its place
+            in the answer imposes (16; 28 for the last field of a plain NTPv4 answer), or
+        (b) NTS answer and an NTS authenticator of the request has a nonce shorter than 16 bytes, or
+        (c) NTPv5 request without the draft identification whose authenticator fails (NAK / DENY
+            answers add the 28-byte draft field; the decoder skips its draft check on that path). *)
+From V Require Import Model.Response Proofs.Response Proofs.ResponseFit Proofs.ResponseFit5 Gen.ConstResponse.
+Local Open Scope Z_scope.
+
+(* Outside the class, whenever the server's policy decides to answer a (decoder-reported, wf_request)
+   request -- NTPv3, NTPv4 or NTPv5, plain or NTS, any answer kind (time, DENY, NTS-NAK), any
+   cookie / placeholder / unique-identifier layout, any reference-id requests, any server state,
+   both shapes of the cookie loop (tf) -- handle, given the daemon's buffer of exactly the request's
+   length, sends that answer (with the statistics of the decision: it is not turned into InternalError). *)
+Theorem C17_fits : forall tf cfg st q recv now k alg stats,
+  wf_request q = true -> wf_env st recv now -> (c_intended cfg = 1 \/ c_intended cfg = 3) ->
+  decision cfg q = inl (Some (k, alg, stats)) -> known_class_C17 q k = false ->
+  exists w, handle tf cfg st q recv now (request_len q) (request_len q) = ORespond stats w.
+Proof. exact fits_all. Qed.
+
+(* the 73-byte request: header, 16-byte unique-identifier field, 9 trailing bytes read as a MAC *)
+Theorem C17_refuted_uid : exists q,
+  wf_request q = true /\ request_len q = 73 /\ known_class_C17 q KTime = true /\
+  (exists w, handle false witness_cfg witness_st q witness_t witness_t 73 1024 = ORespond [4; 0; 4; 3] w /\ wire_len w = 76) /\
+  handle false witness_cfg witness_st q witness_t witness_t 73 73 = OIgnore [4; 0; 3; 2].
+Proof.
+  exists (plain_req 4 [FUid [1;2;3;4;5;6;7;8;9;10;11;12]] 9). vm_compute. repeat split; eauto.
+Qed.
+
+(* the 84-byte request: header, two 8-byte unique-identifier fields, 20-byte MAC *)
+Theorem C17_refuted_uid2 : exists q,
+  wf_request q = true /\ request_len q = 84 /\ known_class_C17 q KTime = true /\
+  (exists w, handle false witness_cfg witness_st q witness_t witness_t 84 1024 = ORespond [4; 0; 4; 3] w /\ wire_len w = 92) /\
+  handle false witness_cfg witness_st q witness_t witness_t 84 84 = OIgnore [4; 0; 3; 2].
+Proof.
+  exists (plain_req 4 [FUid [1;2;3;4]; FUid [5;6;7;8]] 20). vm_compute. repeat split; eauto.
+Qed.
+
+(* NTS request (32-byte unique identifier, cookie, authenticator with an 8-byte nonce) *)
+Theorem C17_refuted_nonce : exists q,
+  wf_request q = true /\ request_len q = 224 /\ known_class_C17 q KNtsTime = true /\
+  (exists w, handle false witness_cfg witness_st q witness_t witness_t 224 1024 = ORespond [4; 1; 4; 3] w /\ wire_len w = 232) /\
+  handle false witness_cfg witness_st q witness_t witness_t 224 224 = OIgnore [4; 1; 3; 2].
+Proof.
+  exists {| q_version := 4; q_mode := 3; q_poll := 6; q_xmit := [1;2;3;4;5;6;7;8]; q_upgrade := false;
+            q_untrusted := []; q_auth := [FUid (repeat 7 32); FCookie 104]; q_enc := []; q_mac := 0;
+            q_cookie := Some 15; q_decrypt_failed := false; q_auths := [(8, 16, 32)] |}.
+  vm_compute. repeat split; eauto.
+Qed.
+
+(* NTPv5 request without draft identification whose 8-byte authenticator cannot be decrypted: 56 bytes, NAK of 76 *)
+Theorem C17_refuted_v5_nak : exists q,
+  wf_request q = true /\ request_len q = 56 /\ known_class_C17 q KNak = true /\
+  (exists w, handle false witness_cfg witness_st q witness_t witness_t 56 1024 = ORespond [5; 1; 2; 0] w /\ wire_len w = 76) /\
+  handle false witness_cfg witness_st q witness_t witness_t 56 56 = OIgnore [5; 1; 3; 2].
+Proof.
+  exists {| q_version := 5; q_mode := 3; q_poll := 6; q_xmit := [1;2;3;4;5;6;7;8]; q_upgrade := false;
+            q_untrusted := [FInvalidNts]; q_auth := []; q_enc := []; q_mac := 0;
+            q_cookie := None; q_decrypt_failed := true; q_auths := [(0, 0, 8)] |}.
+  vm_compute. repeat split; eauto.
+Qed.
+
+(* non-vacuity: requests outside the class that are answered with a request-sized buffer *)
+Example C17_nonvacuous :
+  let q1 := plain_req 4 [FUid [1;2;3;4;5;6;7;8;9;10;11;12]; FUid (repeat 7 24)] 0 in
+  let q2 := {| q_version := 4; q_mode := 3; q_poll := 6; q_xmit := [1;2;3;4;5;6;7;8]; q_upgrade := false;
+               q_untrusted := []; q_auth := [FUid (repeat 7 32); FCookie 104; FPlaceholder 104]; q_enc := []; q_mac := 0;
+               q_cookie := Some 15; q_decrypt_failed := false; q_auths := [(16, 16, 40)] |} in
+  wf_request q1 = true /\ known_class_C17 q1 KTime = false /\ wf_request q2 = true /\ known_class_C17 q2 KNtsTime = false
+  /\ (exists w, handle false witness_cfg witness_st q1 witness_t witness_t (request_len q1) (request_len q1) = ORespond [4; 0; 4; 3] w)
+  /\ (exists w, handle false witness_cfg witness_st q2 witness_t witness_t (request_len q2) (request_len q2) = ORespond [4; 1; 4; 3] w)
+  /\ wf_env witness_st witness_t witness_t.
+Proof. vm_compute. repeat split; eauto. Qed.
+
+Print Assumptions C17_fits.
+Print Assumptions C17_refuted_uid.
+Print Assumptions C17_refuted_uid2.
+Print Assumptions C17_refuted_nonce.
+Print Assumptions C17_refuted_v5_nak.
